@@ -30,6 +30,9 @@ pub enum Family {
     Sem,
     /// BatchSemaphore with async tasks and cancellable acquisitions
     SemAsync,
+    /// like SemAsync, but tasks are spawned in a chain (task i by task i-1, right after its first op), so
+    /// that the arrival order of queued acquisitions is forced by the program
+    SemChain,
     /// async tasks, events, join/abort/detach
     Async,
     /// threads: a bit of everything (no async)
@@ -48,6 +51,7 @@ pub const ALL_FAMILIES: &[Family] = &[
     Family::Chan,
     Family::Sem,
     Family::SemAsync,
+    Family::SemChain,
     Family::Async,
     Family::Mixed,
     Family::All,
@@ -202,6 +206,7 @@ fn menu(cfg: &GenCfg) -> Vec<K> {
         Family::Chan => vec![Send, Send, Send, TrySend, TrySend, Recv, Recv, Recv, TryRecv, TryRecv, DropTx, DropRx, ALoad, AStore],
         Family::Sem => vec![Acquire, Acquire, Acquire, TryAcquire, TryAcquire, Release, Release, Release, Close, Avail, ALoad, AStore],
         Family::SemAsync => vec![Acquire, Acquire, TryAcquire, Release, Release, Release, Close, Avail, AcqStart, AcqStart, AcqStart, AcqFinish, AcqFinish, AcqDrop, AcqDrop, Yield],
+        Family::SemChain => vec![AcqStart, AcqStart, AcqStart, AcqStart, AcqFinish, AcqFinish, AcqDrop, AcqDrop, Acquire, TryAcquire, Release, Release],
         Family::Async => vec![EvWait, EvWait, EvWait, EvSet, EvSet, EvSet, EvWake, Yield, Yield, Abort, Abort, DropHandle, IsFinished, IsFinished, ALoad, AStore, Lock, Unlock],
         Family::Mixed => vec![
             Lock, TryLock, Unlock, MAdd, MGet, Read, Write, RwUnlock, RwGet, ALoad, AStore, AFetchAdd, ACas, CvWait, NotifyOne, NotifyAll, MSet, BWait, CallOnce, OnceDone, Send, Send, TrySend, Recv,
@@ -235,7 +240,7 @@ fn menu(cfg: &GenCfg) -> Vec<K> {
 }
 
 fn allows_async(f: Family) -> bool {
-    matches!(f, Family::SemAsync | Family::Async | Family::All)
+    matches!(f, Family::SemAsync | Family::SemChain | Family::Async | Family::All)
 }
 
 /// Statistics of the fix-up pass (how often a known-finding shape was rewritten)
@@ -278,11 +283,15 @@ pub fn build(raw: &RawProg, cfg: &GenCfg) -> (Prog, FixStats) {
         })
         .collect();
     let barriers: Vec<usize> = raw.barrier_sizes.iter().map(|b| (*b as usize).clamp(1, 3)).collect();
-    let sems: Vec<(usize, bool)> = raw.sem_params.iter().map(|(p, f)| (*p as usize, *f)).collect();
+    let mut sems: Vec<(usize, bool)> = raw.sem_params.iter().map(|(p, f)| (*p as usize, *f)).collect();
+    if cfg.family == Family::SemChain {
+        sems[0] = (sems[0].0 % 2, true);
+        sems.truncate(1);
+    }
     let objs = Objs { mutexes: NM, rwlocks: NR, condvars: NC, atomics: NA, barriers: barriers.clone(), onces: NO, chans: chans.clone(), sems: sems.clone(), events: NE };
 
     let kinds: Vec<TaskKind> = std::iter::once(TaskKind::Thread)
-        .chain(raw.tasks.iter().map(|t| if t.is_async && allows_async(cfg.family) { TaskKind::Async } else { TaskKind::Thread }))
+        .chain(raw.tasks.iter().map(|t| if (t.is_async || cfg.family == Family::SemChain) && allows_async(cfg.family) { TaskKind::Async } else { TaskKind::Thread }))
         .collect();
 
     // translate op lists
@@ -299,7 +308,11 @@ pub fn build(raw: &RawProg, cfg: &GenCfg) -> (Prog, FixStats) {
         let mut tx_dropped: Vec<usize> = vec![];
         let mut rx_dropped: Vec<usize> = vec![];
         for r in rops {
-            let k = menu[idx((r.kind as u16) << 8, menu.len())];
+            let mut k = menu[idx((r.kind as u16) << 8, menu.len())];
+            if cfg.family == Family::SemChain && ti >= 1 && ops.is_empty() {
+                // every chained task first queues on the semaphore (the last one with a blocking acquire)
+                k = if ti + 1 == nt { K::Acquire } else { K::AcqStart };
+            }
             let v = (r.val % 3) as i64;
             match k {
                 K::Lock | K::TryLock | K::Unlock => {
@@ -612,14 +625,16 @@ pub fn build(raw: &RawProg, cfg: &GenCfg) -> (Prog, FixStats) {
     let mut spawn_pos: Vec<(usize, usize, usize)> = vec![]; // (parent, position, child)
     for i in 1..nt {
         let rt = &raw.tasks[i - 1];
-        let parent = idx(rt.parent, i); // 0..i-1
-        spawn_pos.push((parent, rt.spawn_at as usize, i));
+        let chain = cfg.family == Family::SemChain;
+        let parent = if chain { i - 1 } else { idx(rt.parent, i) }; // 0..i-1
+        spawn_pos.push((parent, if chain { usize::MAX } else { rt.spawn_at as usize }, i));
     }
     // insert spawns (and joins) per parent, in child order to keep it deterministic
     for (parent, sel, child) in spawn_pos.iter().copied() {
         let len = tasks[parent].ops.len();
         // never insert between a SkipUnlessLast and its guarded op
-        let mut pos = idx(sel as u16, len + 1);
+        // chain mode: right after the parent's first op (its own Spawn excluded)
+        let mut pos = if sel == usize::MAX { 1.min(len) } else { idx(sel as u16, len + 1) };
         while pos > 0 && matches!(tasks[parent].ops[pos - 1], Op::SkipUnlessLast(..)) {
             pos -= 1;
         }
